@@ -201,6 +201,8 @@ def handle (d : DState) (line : String) : DState × String :=
     | _ => (d, "bad-op")
   | [cmd, hint] =>
     let first := (cmd.splitOn " ").headD ""
+    -- a case abandoned by the harness watchdog: nothing was observed, nothing is predicted
+    if hint = "timeout" then (d, "timeout") else
     if first = "q" || first = "t" || first = "close" then
       match parseHint hint with
       | none => (d, "bad-op")
